@@ -222,6 +222,7 @@ type scenario struct {
 	TempClash bool     `json:"temp_clash"`
 	TempSeed  uint64   `json:"temp_seed"`
 	BaseLink  string   `json:"base_link,omitempty"` // the base directory is a symlink to this directory
+	Umask     uint32   `json:"umask,omitempty"`     // process umask during the installation
 	Pre       []preOp  `json:"pre"`
 	Kinds     []string `json:"kinds"` // which pre-state families were drawn (for evidence)
 	// a second installation performed before the one under test (C16 sequences)
@@ -465,6 +466,11 @@ func genScenario(e *env, r *rng, id string, withFaultyPre bool) scenario {
 		add("temp_name_collision")
 		s.TempClash = true
 	}
+	s.Umask = 0o022
+	if r.chance(1, 3) {
+		s.Umask = pick(r, []uint32{0o077, 0o027, 0o002, 0o007})
+		add(fmt.Sprintf("umask_%03o", s.Umask))
+	}
 	return s
 }
 
@@ -499,6 +505,7 @@ func buildDisk(s *scenario) *simos.Disk {
 	d.Cwd = s.Cwd
 	d.Home = s.Home
 	d.Uid = s.Uid
+	d.Umask = fs.FileMode(s.Umask)
 	d.TempClash = s.TempClash
 	tr := newRng(s.TempSeed)
 	d.Rand = func(n int) int { return tr.intn(n) }
@@ -603,7 +610,8 @@ func stepKind(d *simos.Disk, step int) string {
 }
 
 // checkC15 judges one faulty run. baseOK tells whether the fault-free run from the same pre-state succeeded.
-func checkC15(e *env, s *scenario, pre *simos.Disk, preSnap map[string]simos.Entry, plan []simos.Fault, res runResult, baseOK bool, st *stats) (string, string) {
+func checkC15(e *env, s *scenario, pre *simos.Disk, preSnap map[string]simos.Entry, plan []simos.Fault, res runResult, base runResult, st *stats) (string, string) {
+	baseOK := base.err == nil
 	_, skill, ok := e.skillPaths(s)
 	if !ok {
 		return "", ""
@@ -654,6 +662,27 @@ func checkC15(e *env, s *scenario, pre *simos.Disk, preSnap map[string]simos.Ent
 		}
 		st.tolerated++
 		return "", ""
+	}
+	// the previous destination of the file whose installation step failed is intact: the file is the one
+	// the failing step's temporary file is (in the fault-free run) renamed to
+	if tmp := opPath(res.disk, f.Step); isTmp(tmp) || kind == "rename" {
+		target := ""
+		for _, o := range base.disk.Log {
+			if o.Kind == "rename" && o.Path == tmp {
+				target = o.Path2
+			}
+		}
+		if target != "" {
+			real := target
+			if byName, realSkill, ok := e.skillPaths(s); ok && strings.HasPrefix(target, byName+"/") {
+				real = realSkill + target[len(byName):]
+			}
+			pr, had := preSnap[real]
+			po, has := post[real]
+			if had != has || (had && pr != po) {
+				return "dest_replaced_despite_error:" + kind, fmt.Sprintf("step %d (%s of %s) failed and an error was reported, yet %s is no longer what it was before the run", f.Step, kind, tmp, target)
+			}
+		}
 	}
 	for p := range post {
 		// when the failing step is the removal of the temporary file itself nothing can take it away
@@ -881,7 +910,7 @@ func main() {
 					continue // the step was never reached in this run (cannot happen for single faults)
 				}
 				st.distinct[logHash(res.disk)] = struct{}{}
-				if sig, detail := checkC15(e, &s, pre, preSnap, plan, res, baseOK, st); sig != "" {
+				if sig, detail := checkC15(e, &s, pre, preSnap, plan, res, base, st); sig != "" {
 					ms, mp := minimise(e, s, plan, sig)
 					mres := execute(&ms, buildDisk(&ms), mp)
 					report("C15", sig, detail, ms, mp, mres.disk)
@@ -1060,7 +1089,7 @@ func minimise(e *env, s scenario, plan []simos.Fault, sig string) (scenario, []s
 		if len(res.disk.Fired) == 0 {
 			return false
 		}
-		got, _ := checkC15(e, &c, pre, preSnap, plan, res, base.err == nil, &stats{})
+		got, _ := checkC15(e, &c, pre, preSnap, plan, res, base, &stats{})
 		return got == sig
 	}
 	cur := s
@@ -1119,7 +1148,7 @@ func doReplay(e *env, file string) int {
 	case "C15":
 		base := execute(&s, pre, nil)
 		res = execute(&s, pre, v.Plan)
-		sig, detail = checkC15(e, &s, pre, preSnap, v.Plan, res, base.err == nil, &stats{})
+		sig, detail = checkC15(e, &s, pre, preSnap, v.Plan, res, base, &stats{})
 	case "C16":
 		res = execute(&s, pre, nil)
 		sig, detail = checkC16(e, &s, preSnap, res)
